@@ -80,6 +80,9 @@ func c14Triple(rng *rand.Rand) ruleTriple {
 			}
 		default:
 			t.Val = c14Segmented(rng, 3, true)
+			if t.Key != "in" && t.Key != "include" && rng.Intn(12) == 0 {
+				t.Val = []string{"=", "=="}[rng.Intn(2)] + t.Val // raw form (and a value that itself begins with '=')
+			}
 		}
 	}
 	if rng.Intn(2) == 0 {
@@ -116,7 +119,14 @@ func c14Render(t ruleTriple) (text, renderedVal string) {
 		default:
 			renderedVal = t.Val
 		}
-		text += "=" + renderedVal
+		if strings.HasPrefix(t.Val, "=") && t.Key != "in" && t.Key != "include" && t.Key != "re" {
+			// raw form: a value that already starts with '=' is written as it is (GenValidKV adds no
+			// second '='); everything after that first '=' is the value — it may itself start with '='
+			renderedVal = t.Val[1:]
+			text += t.Val
+		} else {
+			text += "=" + renderedVal
+		}
 	}
 	if t.HasMsg {
 		text += "|" + t.Msg
@@ -127,7 +137,7 @@ func c14Render(t ruleTriple) (text, renderedVal string) {
 func init() {
 	core.Register(&core.Prop{
 		ID: "C14",
-		Rule: "rule lists of 1-8 (key, value, message) triples over all 34 rule keys rendered with GenValidKV, joined with RM.Set (several field names, repeated Set), read back with RM.Get, split with ValidNamesSplit and parsed with ParseValidNameKV; values/messages over ASCII, CJK, = ~ / ( ) | and single-quoted segments containing commas (documented restrictions: commas only inside quotes, no | inside a value, value not starting with =, message non-empty); " +
+		Rule: "rule lists of 1-8 (key, value, message) triples over all 34 rule keys rendered with GenValidKV, joined with RM.Set (several field names, repeated Set), read back with RM.Get, split with ValidNamesSplit and parsed with ParseValidNameKV; values/messages over ASCII, CJK, = ~ / ( ) | and single-quoted segments containing commas (documented restrictions: commas only inside quotes, no | inside a value, message non-empty; values in raw form =v and ==v included); " +
 			"plus the no-loss law Join(ValidNamesSplit(s)) in {s, s minus one trailing separator} and fast-path/slow-path agreement on arbitrary strings. distinct = distinct rule text / distinct string; non-trivial = list with >=2 rules or a quote, string containing a separator or quote",
 		Shards: func(t core.Tier) int { return 16 },
 		Run:    runC14,
